@@ -430,6 +430,62 @@ def obligations(tier):
                         "unless 0 <= start < end within the collection bounds; an answered query carries exactly the requested range",
                    bounds="1-gene collection with symbolic bounds, all integers for the range, both modes",
                    examples=[dict(lo=10, hi=40, s=12, l=5, qs=11, qe=22, within=True), dict(lo=10, hi=40, s=12, l=5, qs=5, qe=22, within=False)]))
+    def invalid_codon_twice():
+        from inscripta.biocantor.gene.codon import Codon
+
+        CH = ["A", "C", "G", "T", "U", "N", "-", "X", "1", " ", "a", "?"]
+
+        def fn(i, j, k, n):
+            i, j, k, n = concretize(i, j, k, n)
+            with untraced():
+                sq = (CH[i] + CH[j] + CH[k] + "A")[:n]
+                valid = n == 3 and all(c.upper() in "ATUCGNWSMKRYBDHV" for c in sq)
+                # asked three times: an invalid codon is refused EVERY time (ValueError), a valid one is the same well-formed singleton every time
+                seen = []
+                for _ in range(3):
+                    try:
+                        c = Codon(sq)
+                        seen.append(("ok", str(c), len(str(c)) == 3, id(c)))
+                    except ValueError:
+                        seen.append(("refused",))
+                if valid:
+                    return all(x[0] == "ok" and x[2] and x[1] == sq.upper() for x in seen) and len({x[3] for x in seen}) == 1
+                return all(x == ("refused",) for x in seen)
+
+        return fn
+
+    out.append(Obl("invalid_codon_refused_every_time", invalid_codon_twice(), dict(i=int, j=int, k=int, n=int),
+                   lambda i, j, k, n: 0 <= i and i < 12 and 0 <= j and j < 12 and 0 <= k and k < 12 and 2 <= n and n <= 4 and (n == 3 or (i < 2 and j >= 5)),
+                   budget=300, cost=30,
+                   desc="Codon(text) for every 3-character text over a 12-character alphabet (valid letters, U, N, gap, X, digit, blank, lower case, ?) and some of "
+                        "length 2/4, requested three times in a row: invalid text is refused with ValueError every time (no half-built singleton is handed out), valid "
+                        "text gives the same singleton", bounds="12^3 triplets + short/long texts (realised)", examples=[dict(i=0, j=6, k=2, n=3), dict(i=0, j=1, k=2, n=3)]))
+
+    def alphabet_boundaries():
+        from inscripta.biocantor.exc import AlphabetError
+
+        N = 3 * 65536 + 5
+
+        def fn(p, bad):
+            p, bad = concretize(p, bad)
+            with untraced():
+                ch = ["?", "-", "N", "u"][bad]
+                data = "A" * p + ch + "C" * (N - p - 1)
+                try:
+                    sq = Sequence(data, Alphabet.NT_STRICT)
+                except AlphabetError:
+                    return True
+                return False  # an out-of-alphabet character was accepted: str(sq)[p] is not a strict nucleotide
+
+        return fn
+
+    out.append(Obl("alphabet_violation_at_block_boundaries", alphabet_boundaries(), dict(p=int, bad=int),
+                   lambda p, bad: 0 <= p and p < 3 * 65536 + 5 and 0 <= bad and bad <= 3 and (p % 1024 == 0 or p % 1024 == 1 or p % 1024 == 1023) and (bad == 0 or p % 65536 >= 65535),
+                   budget=600, cost=60,
+                   desc="a single out-of-alphabet character anywhere near a multiple of 1024 in a long sequence (196613 nt) is refused with AlphabetError "
+                        "(chunked / blocked validation must not skip positions at block edges)",
+                   bounds="sequence length 3*2^16+5, offending position p with p mod 1024 in {1023, 0, 1} (realised), 4 offending characters at the 2^16 edges",
+                   examples=[dict(p=65535, bad=0), dict(p=1024, bad=0)]))
     from harness.c13 import overlap_refused_k3
 
     out.append(Obl("variant_collection_ctor_k3", overlap_refused_k3(), dict(v1s=int, v1l=int, v2s=int, v2l=int, v3s=int, v3l=int),
